@@ -135,6 +135,7 @@ def run_c11(ctx):
                     xgrow(b, c, verbosity=0)
                     completed.setdefault(b, w.steps)
                     w.note("grow-done", b)
+                state["growers_ok"] = state.get("growers_ok", 0) + 1
             finally:
                 state["growers_left"] -= 1
                 if state["growers_left"] == 0:
@@ -147,7 +148,9 @@ def run_c11(ctx):
         # the crop is kept when a poller keeps asking about it, and when the
         # same batch is grown twice (a straggling duplicate grower racing with
         # the clean-up is outside what C11 states; clean-up ordering is C12)
-        return c.reap(wait=True, clean_up=False if (poller_on or dup) else None)
+        res = c.reap(wait=True, clean_up=False if (poller_on or dup) else None)
+        state["reaper_returned"] = True
+        return res
 
     polls = []
 
@@ -189,7 +192,10 @@ def run_c11(ctx):
                 a.name, type(a.exc).__name__, short(str(a.exc), 200)), site=xyz_site(a.exc))
     if w.aborting:
         # step cap: is the reaper stuck although every grower is done?
-        if state["growers_left"] == 0 and not ractor.finished:
+        # (after an abort every actor has been unwound, so "finished" says nothing:
+        # what counts is whether each grower ran to its end and the reap returned)
+        if state.get("growers_ok", 0) == len(gactors) and not state.get("reaper_returned") \
+                and ractor.exc is None:
             raise Violation("reaper-stuck",
                             "all growers finished at step {} but the reaper never returned "
                             "(step cap {})".format(state["all_done_step"], cfg["max_steps"]))
